@@ -174,6 +174,41 @@ pub fn record(args: &[String]) {
                "has_inst": inp.inst.is_some(), "inst": inp.inst.clone().unwrap_or(json!({"c": {"day": 0, "y": 1970, "m": 1, "d": 1, "wd": 3, "yd": 1}, "sod": 0}))})
     });
     let _ = std::fs::remove_dir_all(&other);
+    let mut events = events;
+    // "a function of the repository state", not of earlier runs: a repository is observed, its tags are changed
+    // without touching a commit, and it is observed again - next to a fresh clone in the same state
+    {
+        let mut h = Repo::new(0);
+        h.apply("tag", &to_cps("v1.0.0-rc.1")).unwrap();
+        h.apply("commit", &json!([])).unwrap();
+        let base = ins.len();
+        let run = |dir: &std::path::Path, fmt: &str| {
+            let a: Vec<String> = vec![s("version"), s("-C"), dir.display().to_string(), s("--output-format"), s(fmt), s("--schema"), s("standard-base-prerelease-post")];
+            let r = run_bin(&a, None, &[("TZ".to_string(), "UTC".to_string())], &["RUST_LOG"], Some(std::path::Path::new("/")));
+            (a, r)
+        };
+        let mut push = |id: usize, a: Vec<String>, r: crate::proc::RunObs| {
+            events.push(json!({"k": "run", "input": id, "argv": a, "tz": "UTC", "locale": "C", "cwd": "/", "extra_env": 0, "status": r.status, "signal": r.signal,
+                               "out": to_cps(&String::from_utf8_lossy(&r.stdout)), "has_inst": false,
+                               "inst": {"c": {"day": 0, "y": 1970, "m": 1, "d": 1, "wd": 3, "yd": 1}, "sod": 0}}));
+        };
+        for (k, fmt) in ["semver", "pep440"].iter().enumerate() {
+            let (a, r) = run(&h.dir, fmt);
+            push(base + 1 + k, a, r);                          // state 1: only the release candidate tag
+        }
+        let root = h.hashes[0].clone();
+        let _ = h.git(&["tag", "v1.0.0", &root], None);          // state 2: the release is tagged on the same commit
+        let clone = h.dir.with_extension("clone");
+        let _ = std::fs::remove_dir_all(&clone);
+        let _ = h.git(&["clone", "-q", &h.dir.display().to_string(), &clone.display().to_string()], None);
+        for (k, fmt) in ["semver", "pep440"].iter().enumerate() {
+            for dir in [&h.dir, &clone, &h.dir] {
+                let (a, r) = run(dir, fmt);
+                push(base + 3 + k, a, r);
+            }
+        }
+        let _ = std::fs::remove_dir_all(&clone);
+    }
     let mut out = std::io::BufWriter::new(std::fs::File::create(&args[2]).unwrap());
     for e in &events {
         writeln!(out, "{e}").unwrap();
